@@ -259,3 +259,82 @@ def compare_denot(dm, di, dabs, nop, exact):
         if abs(a - b) > tol:
             return f"coefficient of w^{k}: model {float(a)!r} impl {float(b)!r} |diff|={float(abs(a-b)):.3e} > budget {float(tol):.3e}"
     return None
+
+
+# ---------------------------------------------------------------------------------------
+# magnitude interpretation (an upper bound on every coefficient's absolute value and on every
+# intermediate sum of absolute terms), computed in the harness with floats rounded up
+
+def _madd(a, b):
+    r = dict(a)
+    for k, v in b.items():
+        r[k] = r.get(k, 0.0) + v
+    return r
+
+
+def _mmul(a, b):
+    r = {}
+    for k, v in a.items():
+        for j, u in b.items():
+            r[k + j] = r.get(k + j, 0.0) + v * u
+    return r
+
+
+def mag_p(e):
+    op = e[0]
+    if op == "lit":
+        return {e[1] + 2 * i: abs(float(c)) for i, c in enumerate(e[2])}
+    if op in ("add", "sub"):
+        return _madd(mag_p(e[1]), mag_p(e[2]))
+    if op == "mul":
+        return _mmul(mag_p(e[1]), mag_p(e[2]))
+    if op in ("neg", "posh", "negh"):
+        return mag_p(e[1])
+    if op == "inv":
+        return {-k: v for k, v in mag_p(e[1]).items()}
+    if op in ("scale", "rscale"):
+        return {k: abs(float(e[1])) * v for k, v in mag_p(e[2]).items()}
+    if op == "trunc":
+        return {k: v for k, v in mag_p(e[1]).items() if e[2] <= k <= e[3]}
+    raise AssertionError(op)
+
+
+def mag_g(e):
+    op = e[0]
+    if op == "glit":
+        return mag_p(e[1]), mag_p(e[2])
+    if op in ("gadd", "gsub"):
+        a, b = mag_g(e[1]), mag_g(e[2])
+        return _madd(a[0], b[0]), _madd(a[1], b[1])
+    if op == "gmul":
+        (ai, ax), (bi, bx) = mag_g(e[1]), mag_g(e[2])
+        inv = lambda d: {-k: v for k, v in d.items()}
+        return _madd(_mmul(ai, bi), _mmul(ax, inv(bx))), _madd(_mmul(ai, bx), _mmul(ax, inv(bi)))
+    if op == "gneg":
+        return mag_g(e[1])
+    if op == "ginv":
+        a = mag_g(e[1])
+        return {-k: v for k, v in a[0].items()}, a[1]
+    if op == "gaddp":
+        a = mag_g(e[1])
+        return _madd(a[0], mag_p(e[2])), a[1]
+    if op == "gmulp":
+        a, p = mag_g(e[1]), mag_p(e[2])
+        return _mmul(a[0], p), _mmul(a[1], {-k: v for k, v in p.items()})
+    if op == "pmulg":
+        p, a = mag_p(e[1]), mag_g(e[2])
+        return _mmul(p, a[0]), _mmul(p, a[1])
+    if op == "gscale":
+        a = mag_g(e[1])
+        c = abs(float(e[2]))
+        return {k: c * v for k, v in a[0].items()}, {k: c * v for k, v in a[1].items()}
+    if op == "gtrunc":
+        a = mag_g(e[1])
+        f = lambda d: {k: v for k, v in d.items() if e[2] <= k <= e[3]}
+        return f(a[0]), f(a[1])
+    raise AssertionError(op)
+
+
+def fmag(d):
+    """float magnitudes -> Fractions, rounded up"""
+    return {k: Fraction(v * (1 + 1e-9) + 1e-300) for k, v in d.items()}
